@@ -977,6 +977,7 @@ class Handle:
             self.mc = MetadorContainer(IH5Record(self.path, "w"))
         self.dirty = True  # something written since the last patch boundary (IH5)
         self.n_reopen = 0
+        self.held = {}  # path -> node.meta handle kept across consecutive attach/detach operations (as user code holding `m = node.meta` does)
 
     @property
     def raw(self):
@@ -1078,14 +1079,19 @@ def apply_cop(h: Handle, op, timeout: float = OP_TIMEOUT_S):
                     key = (sname, tuple(ver))
                 else:
                     key = sname
-                node = node_of(mc, path)
+                meta = h.held.get(path)
+                if meta is None:
+                    meta = h.held[path] = node_of(mc, path).meta
                 if env is not None:
                     with restricted_env(sname, env):
-                        node.meta[key] = val
+                        meta[key] = val
                 else:
-                    node.meta[key] = val
+                    meta[key] = val
             elif kind == "detach":
-                del node_of(mc, op[1]).meta[op[2]]
+                meta = h.held.get(op[1])
+                if meta is None:
+                    meta = h.held[op[1]] = node_of(mc, op[1]).meta
+                del meta[op[2]]
             elif kind == "reopen":
                 h.reopen()
             elif kind == "commit":
@@ -1094,11 +1100,15 @@ def apply_cop(h: Handle, op, timeout: float = OP_TIMEOUT_S):
                 raise RuntimeError(f"unknown container op {op}")
         if kind not in ("reopen", "commit"):
             h.dirty = True
+        if kind not in ("attach", "detach"):
+            h.held.clear()  # handles are only reused while nothing else happened to the container
         return ("ok", None, "")
     except OpTimeout:
         return ("hang", None, "")
     except Exception as e:  # noqa
         h.dirty = True
+        if kind not in ("attach", "detach"):
+            h.held.clear()
         return ("err", type(e).__name__, str(e)[:200])
 
 
@@ -1964,7 +1974,7 @@ class BaseChecker:
         if not self.minimise:
             return
         t_end = time.time() + budget_s
-        todo = sorted(self.rec.violations, key=lambda v: len(v["replay"]["case"]["history"]))
+        todo = sorted((v for v in self.rec.violations if "history" in v["replay"]["case"]), key=lambda v: len(v["replay"]["case"]["history"]))
         for i, v in enumerate(todo):
             case = v["replay"]["case"]
             left = t_end - time.time()
